@@ -272,11 +272,6 @@ func oracle(c *Case, o *Obs) (string, string) {
 		if p.matches(&lazy[i]) {
 			return "", ""
 		}
-		// a panic while a copied stream is read: the copy's other readers find the shared element
-		// abandoned and report ErrRecvAfterClosed; the run still fails (accepted, see notes/C13.md)
-		if lazy[i].pan >= 0 && p.Is[5] {
-			return "", ""
-		}
 		// an interrupt's checkpoint conversion read the panicking stream on the run loop's goroutine of a
 		// nested run: the parent's executor contained it; in stream mode the payload is a second panic's
 		if lazy[i].pan >= 0 && rerun && p.Panic == -2 && p.MsgPanic {
